@@ -96,6 +96,7 @@ TCheck == Ev("link-version-checked") /\ Check(E.t) /\ (E.stamp_ok = Reuse) /\ PU
 TReuse == Ev("link-reuse") /\ pc[E.t] = "run" /\ UNCHANGED allvars /\ KeepKey
 TBuildStart == Ev("link-build-start") /\ BuildStart(E.t) /\ PUnch /\ KeepKey
 TBuildDone == Ev("link-build-done") /\ BuildDone(E.t) /\ PUnch /\ KeepKey
+TRename == Ev("link-renamed") /\ Rename(E.t) /\ PUnch /\ KeepKey
 TStamp == Ev("link-stamp-written") /\ StampDone(E.t) /\ PUnch /\ KeepKey
 (* the linker that is executed is the cached patched one, under the lock *)
 TLinkRun == Ev("tool-run") /\ E.tool = "link" /\ E.patched /\ RunLinker(E.t) /\ PUnch /\ KeepKey
@@ -104,7 +105,7 @@ TUnlock == Ev("link-unlock") /\ LinkUnlock(E.t) /\ KeepKey
 (* link failed (tool-done ok=false) or PatchLinker returned an error: unlock without a binary *)
 TUnlockFailed == /\ Ev("link-unlock-failed") /\ lock = E.t
                  /\ lock' = "none" /\ pc' = [pc EXCEPT ![E.t] = "done"]
-                 /\ UNCHANGED <<stamp, bin, used, kills, damages>> /\ PUnch /\ KeepKey
+                 /\ UNCHANGED <<stamp, bin, tmp, used, kills, damages>> /\ PUnch /\ KeepKey
 
 TKill == Ev("kill") /\ PKill(E.t) /\ KeepKey
 
@@ -115,7 +116,7 @@ Silent == /\ l <= Len(Trace) /\ UNCHANGED <<l, keyOf>>
 TraceNext == \/ TCmdStart \/ TShared \/ TGoStart \/ TGoDone \/ TEarlyRemove \/ TRemove \/ TVersion
              \/ TKidStart \/ TCompileStart \/ TCacheGet \/ TCacheGetWarmHit \/ TCacheDep \/ TCacheDepHit \/ TCachePut
              \/ TAsmPut \/ TAsmGet \/ TWrite \/ TToolRun \/ TToolDone \/ TKidFailed
-             \/ TLinkStart \/ TLock \/ TCheck \/ TReuse \/ TBuildStart \/ TBuildDone \/ TStamp \/ TLinkRun \/ TLinkDone
+             \/ TLinkStart \/ TLock \/ TCheck \/ TReuse \/ TBuildStart \/ TBuildDone \/ TRename \/ TStamp \/ TLinkRun \/ TLinkDone
              \/ TUnlock \/ TUnlockFailed \/ TKill \/ Silent
 TraceSpec == TraceInit /\ [][TraceNext]_tvars
 
